@@ -256,6 +256,17 @@ def _loopenv(lp) -> dict:
     return loop_env(lp)
 
 
+def enclosing_loop_of(n, top):
+    q = parent(n)
+    while q is not None and q is not top:
+        if isinstance(q, (ast.For, ast.While, ast.AsyncFor)):
+            return q
+        if isinstance(q, (ast.FunctionDef, ast.AsyncFunctionDef, ast.Lambda)):
+            return None
+        q = parent(q)
+    return None
+
+
 def check_sweep(ctx, sm, exc, num=4):
     f, g, lp = sm.f, sm.g, sm.main
     nm = getattr(sm, "names", None)
@@ -269,6 +280,13 @@ def check_sweep(ctx, sm, exc, num=4):
     ok = False
     lat_list = None
     d = "the completion sweep is not a loop over a snapshot of the outstanding pipelines"
+    if sl is not None and sl is not lp:
+        # every outstanding pipeline is examined in the tick: the sweep is never cut short (a pipeline that completed in this tick but is not
+        # reached would be counted in a later tick, with a later finish tick, or never)
+        hid_ = g.node_of(sl).id
+        cut = [n for n in ast.walk(sl) if isinstance(n, (ast.Break, ast.Return)) and enclosing_loop_of(n, f.node) is sl]
+        ctx.ob(num, "K3", "the completion sweep examines every outstanding pipeline (it is never cut short by break / return)", not cut, f, cut[0] if cut else sl,
+               construct="no early exit from the sweep", detail=f"{[stmt_text(poolmod.stmt_of(n)) for n in cut]}" if cut else "no break / return in the sweep loop")
     if sl is not None and sl is not lp and out:
         it = norm.U(sl.iter)
         snap = it in (f"list({out}.keys())", f"list({out})", f"list({out}.items())", f"list({out}.values())", f"tuple({out}.keys())", f"tuple({out})")
